@@ -82,6 +82,11 @@ CLAIMED = {
    "A symbol table of 6 accounts (shared prefixes and segments, mixed case, non-ASCII), 4 payees, 3 commodities and 3 tags with 0-2 values, with use counts forming ties and strict orders, in one file, split over root + included file, and the same with a workspace root. Typed lines: ordinary / (virtual) / [balanced] posting, account and commodity directive, header after date, after status, after code, transaction and posting comments (tag name), tag value, commodity after an amount. Fragments: every prefix of every name in original, lower and upper case, every subsequence of length <= 3 of one name per kind, one non-matching fragment, the empty fragment; and every cursor column of two lines per context. Configurations: maxResults {1,2,3,5,50,200} x fuzzy on/off x counts on/off. Every response: size <= maximum; every label is a name of the declared kind in the model (or spelled by the typed line itself); every label matches the replaced text as case-insensitive subsequence (fuzzy) or prefix; edit range on the cursor line, start <= cursor = end; at designed cursors the replaced text is the typed fragment, every name starting with it is present when the maximum allows, and with nothing typed use counts are non-increasing; items(max=a) is the length-a prefix of items(max=b) for consecutive maxima.",
    "Date completion is clock-dependent and only covered for totality (C06). Names spelled by the line being typed are part of the document and accepted.",
    "DESIGN.md §5 C16"),
+ "C18": ("exploration",
+   "bounded-exhaustive enumeration of declaration placements x settings x posting classes over a four-file workspace; expected (code, line) multiset computed from the model",
+   "Layout main.journal (workspace root) -> cur.journal (the open document) -> inc.journal, and main.journal -> sib.journal. Account and, independently, commodity declarations live in the current, the included, the sibling workspace file or nowhere (16 placements) x the 8 combinations of the three diagnostics settings x workspace root present/absent. Transaction 1 uses accounts of 15 classes (declared, child, grandchild, sibling, sharing a prefix without colon boundary, standard categories in mixed and upper case, look-alike category, undeclared) alone, in all pairs (thorough: all triples) and all together; transaction 2 uses declared and undeclared commodities in amount, cost and assertion position, once and twice. The published diagnostics must contain exactly one UNDECLARED_ACCOUNT on the line of every uncovered posting iff an account declaration is visible (own file, include tree, workspace files with a root) and the setting is on, exactly one UNDECLARED_COMMODITY per (transaction, undeclared symbol) iff a commodity declaration is visible and its setting is on, and each setting affects only its own code.",
+   "Declarations via D / P are not declarations (hledger agrees). Single-segment account names are outside G.",
+   "DESIGN.md §4.3, §5 C18"),
 }
 
 NOT_YET = "check not built yet in this session (work in progress; see DESIGN.md §5 for the plan)"
